@@ -393,13 +393,17 @@ Section Exposure.
   Context {Scene Data : Type}.
   Variable empty_scene : Scene.
   Variable scene_is_empty : Scene -> bool.
+  Variable copies : ckind -> bool.
 
   Notation det := (det Scene Data).
   Notation config := (config Scene Data).
   Notation tree := (tree Scene Data).
   Notation end_states := (end_states empty_scene).
-  Notation exposure := (exposure empty_scene scene_is_empty).
+  Notation exposure := (exposure empty_scene scene_is_empty copies).
   Notation reset := (reset empty_scene).
+  Notation views := (views empty_scene copies).
+  Notation trace := (trace empty_scene).
+  Notation debug_steps := (debug_steps empty_scene copies).
 
   Lemma end_states_length : forall (c : config) n i d, List.length (end_states c i n d) = n.
   Proof. induction n; simpl; intros; [reflexivity|]. rewrite IHn. reflexivity. Qed.
@@ -413,12 +417,56 @@ Section Exposure.
     unfold step_end. rewrite H1, H2, H3. f_equal. apply IHn; assumption.
   Qed.
 
+  Lemma trace_ext : forall (c c' : config) n i d,
+    c_shape c = c_shape c' -> c_nondestr c = c_nondestr c' -> c_models c = c_models c' ->
+    trace c i n d = trace c' i n d.
+  Proof.
+    induction n; simpl; intros i d H1 H2 H3; [reflexivity|].
+    rewrite H1, H2, H3. f_equal. f_equal. apply IHn; assumption.
+  Qed.
+
   Lemma debug_steps_ext : forall (c c' : config) n i d last,
     c_shape c = c_shape c' -> c_nondestr c = c_nondestr c' -> c_models c = c_models c' ->
-    debug_steps empty_scene c i n d last = debug_steps empty_scene c' i n d last.
+    debug_steps c i n d last = debug_steps c' i n d last.
   Proof.
     induction n; simpl; intros i d last H1 H2 H3; [reflexivity|].
-    rewrite H1, H2, H3. f_equal. apply IHn; assumption.
+    rewrite H1, H2, H3. rewrite (trace_ext c c') by assumption. f_equal. apply IHn; assumption.
+  Qed.
+
+  Lemma views_ext : forall (c c' : config) ends,
+    c_shape c = c_shape c' -> c_nondestr c = c_nondestr c' -> c_models c = c_models c' ->
+    views c ends = views c' ends.
+  Proof. intros c c' [|e0 rest] H1 H2 H3; simpl; [reflexivity|]. rewrite H1, H2, H3. reflexivity. Qed.
+
+  (* ---- a read-out that does not copy is harmless for the slices as long as the container gets a new
+     buffer at every reset: true of the charge array (Charge.empty: np.zeros_like) ---- *)
+  Definition slices_safe : Prop := forall k, copies k = false -> k = KCharge.
+
+  Lemma settle_snapshot_id : forall (d : det) later s,
+    (forall b a, get s b = Some a -> snd (settle copies d later (b, a)) = a) ->
+    settle_snapshot copies d later s = s.
+  Proof.
+    intros d later [p c x g i] H. unfold settle_snapshot. simpl.
+    f_equal.
+    - destruct p as [a|]; simpl; [|reflexivity]. f_equal. apply (H Photon a). reflexivity.
+    - destruct c as [a|]; simpl; [|reflexivity]. f_equal. apply (H Charge a). reflexivity.
+    - destruct x as [a|]; simpl; [|reflexivity]. f_equal. apply (H Pixel a). reflexivity.
+    - destruct g as [a|]; simpl; [|reflexivity]. f_equal. apply (H Signal a). reflexivity.
+    - destruct i as [a|]; simpl; [|reflexivity]. f_equal. apply (H Image a). reflexivity.
+  Qed.
+
+  Lemma views_exact : forall (c : config) ends,
+    slices_safe -> views c ends = map view ends.
+  Proof.
+    intros c [|e0 rest] Hs; simpl; [reflexivity|]. f_equal.
+    apply settle_snapshot_id. intros b a Hg. unfold settle. simpl.
+    destruct (copies (kind_of b a)) eqn:Ec; [reflexivity|].
+    apply Hs in Ec. destruct b; simpl in Ec; try discriminate.
+    - destruct (List.length (a_shape a) =? 3)%nat; discriminate.
+    - simpl. destruct rest as [|e1 rest]; simpl; [reflexivity|].
+      rewrite andb_false_r.
+      destruct (Nat.eqb (S (d_gen e0 Charge)) (d_gen e0 Charge)) eqn:E; [|reflexivity].
+      apply Nat.eqb_eq in E. lia.
   Qed.
 
   Definition ends_of (c : config) (d_init : det) : list det :=
@@ -429,13 +477,15 @@ Section Exposure.
 
   (* C03_slices *)
   Theorem slices_faithful : forall (c : config) (d_init : det),
+    slices_safe ->
     StronglySorted Z.lt (c_times c) ->
     image_stable (map view (ends_of c d_init)) ->
     exists t, exposure c d_init = Some t /\
       t_buckets t = combine (labels c) (map view (ends_of c d_init)) /\
       List.length (t_buckets t) = List.length (c_times c).
   Proof.
-    intros c d_init Hs Hst. unfold exposure. fold (ends_of c d_init).
+    intros c d_init Hsafe Hs Hst. unfold Result.exposure. fold (ends_of c d_init).
+    rewrite (views_exact c _ Hsafe).
     assert (Hlen : List.length (labels c) = List.length (map view (ends_of c d_init))).
     { unfold labels, ends_of. rewrite !map_length, end_states_length. reflexivity. }
     rewrite assemble_increasing.
@@ -455,6 +505,7 @@ Section Exposure.
   (* per bucket: exactly one slice per readout, in order, labelled start + t_i, holding what the
      detector held at the end of step i *)
   Corollary slices_per_bucket : forall (c : config) (d_init : det) b,
+    slices_safe ->
     StronglySorted Z.lt (c_times c) ->
     image_stable (map view (ends_of c d_init)) ->
     exists t, exposure c d_init = Some t /\
@@ -462,17 +513,19 @@ Section Exposure.
         combine (map (Z.add (c_start c)) (c_times c))
                 (map (fun d => get (view d) b) (ends_of c d_init)).
   Proof.
-    intros c d_init b Hs Hst. destruct (slices_faithful c d_init Hs Hst) as [t [He [Hb _]]].
+    intros c d_init b Hsafe Hs Hst. destruct (slices_faithful c d_init Hsafe Hs Hst) as [t [He [Hb _]]].
     exists t. split; [exact He|]. rewrite Hb, bucket_slices_combine, map_map. reflexivity.
   Qed.
 
   (* C03_image_dtype: no hypothesis on the values *)
   Theorem image_dtype_kept : forall (c : config) (d_init : det) t_ tr,
+    slices_safe ->
     Forall (fun d => image_has_dtype t_ (d_snap d)) (ends_of c d_init) ->
     exposure c d_init = Some tr ->
     Forall (fun ls => image_has_dtype t_ (snd ls)) (t_buckets tr).
   Proof.
-    intros c d_init t_ tr Hall He. unfold exposure in He. fold (ends_of c d_init) in He.
+    intros c d_init t_ tr Hsafe Hall He. unfold Result.exposure in He. fold (ends_of c d_init) in He.
+    rewrite (views_exact c _ Hsafe) in He.
     destruct (assemble _) as [ds|] eqn:Ea; [|discriminate]. inversion He; subst. simpl.
     eapply assemble_image_dtype; [|exact Ea].
     rewrite Forall_forall in *. intros x Hx. apply in_combine_snd in Hx.
